@@ -332,3 +332,346 @@ def sethandle_cases(ctx):
             out.append(_close(["nds %d" % t, "seth 0 %s" % data, "nia", "push 1 0", "shorten 0 %d" % (n // 2), "copy 1", "ser 2 40"]))
             out.append(_close(["nds %d" % t, "seth 0 %s" % data, "nis %d" % t, "chunk 1 0", "shorten 0 %d" % max(0, n - 1), "ser 1 40", "copy 1"]))
     return out
+
+
+# ------------------------------------------------------------------ third layer (model: HHist3.v)
+# cbor_new_intN / set_uintN / mark_*, cbor_new_floatN / set_floatN, new_ctrl / set_ctrl / set_bool /
+# build_bool / new_null / new_undef, cbor_move (alone and in the documented idioms), cbor_intermediate_decref,
+# cbor_build_string, the type-specific serializers, every predicate and value getter.
+CREATORS3 = ("bi", "bf", "bc", "bs", "nis", "nda", "nia", "ndm", "nim", "nt", "bt", "get", "titem", "copy", "load", "nds",
+             "ni", "nf", "nc", "bb", "nn", "nu", "btmv", "bs0")
+
+def _effects3(w, own):
+    """ownership bookkeeping of one op (words w) on the per-handle list own"""
+    o = w[0]
+    if o in ("mv", "idec", "dec"): own[int(w[1])] -= 1
+    elif o == "inc": own[int(w[1])] += 1
+    elif o == "pushmv": own[int(w[2])] -= 1
+    elif o == "tsetmv": own[int(w[2])] -= 1
+    elif o == "maddmv": own[int(w[2])] -= 1; own[int(w[3])] -= 1
+    elif o == "btmv": own[int(w[2])] -= 1
+    if o in CREATORS3: own.append(1)
+
+def _close3(ops, nulls=()):
+    """probes after every op for the handles the client still holds, then the releases that are due;
+    nulls: handles known to be NULL (e.g. a get beyond the end)"""
+    own, text = [], []
+    for o in ops:
+        _effects3(o.split(), own)
+        for h in nulls:
+            if h < len(own): own[h] = 0
+        live = [h for h in range(len(own)) if own[h] > 0]
+        text.append(o + (" ? " + " ".join(map(str, live)) if live else ""))
+    for h in range(len(own)):
+        for _ in range(max(0, own[h])):
+            text.append("dec %d" % h)
+    return "; ".join(text)
+
+INT_BOUNDS = [0, 23, 24, 255, 256, 65535, 65536, 2 ** 32 - 1, 2 ** 32, 2 ** 64 - 1]
+INT_SIZE = lambda w, v: (1 if v <= 23 else 2) if w == 8 else {16: 3, 32: 5, 64: 9}[w]
+F16_AS_F32 = [half_to_f32bits(h) for h in (0x0000, 0x8000, 0x0001, 0x03FF, 0x0400, 0x3C00, 0x7BFF, 0x7C00, 0xFC00, 0x7E00, 0x7C01, 0xC000)] + \
+             [0x3F800001, 0x7F7FFFFF, 0x00000001, 0x33800000, 0x33000000, 0x33800001, 0x477FE000, 0x477FF000, 0x7F800001, 0xFFC00001, 0x38800000, 0x387FC000]
+F32_PATS = [0, 0x80000000, 0x3F800000, 0x7F800000, 0xFF800000, 0x7FC00000, 0x7F800001, 0xFFC00001, 0xFFFFFFFF, 0x00000001, 0x007FFFFF, 0x00800000, 0x7F7FFFFF, 0x33800000]
+F64_PATS = [0, 1 << 63, 0x3FF0000000000000, 0x7FF0000000000000, 0xFFF0000000000000, 0x7FF8000000000000, 0x7FF0000000000001, 0xFFF8000000000001,
+            0xFFFFFFFFFFFFFFFF, 1, 0x000FFFFFFFFFFFFF, 0x0010000000000000, 0x7FEFFFFFFFFFFFFF, 0x3FF0000000000001]
+
+def api3_scenarios(ctx):
+    out = []
+    A = lambda ops, nulls=(): out.append(_close3(ops, nulls))
+    # ---- integers: new, (predicates before the first store), set, mark, every getter, serializers, copy
+    for w in (8, 16, 32, 64):
+        for v in INT_BOUNDS:
+            vv = v % (1 << w)
+            size = INT_SIZE(w, vv)
+            for mark, kind in ((None, "uint"), ("mku", "uint"), ("mkn", "negint")):
+                ops = ["ni %d" % w, "preds 0", "su %d 0 %d" % (w, v)] + ([mark + " 0"] if mark else []) + \
+                      ["vals 0", "val 0", "ssize 0", "ser 0 %d" % size, "sert %s 0 %d" % (kind, size), "copy 0", "vals 1", "salloc 0"]
+                A(ops)
+            # mark before the first store; store twice; mark back and forth
+            A(["ni %d" % w, "mkn 0", "preds 0", "su %d 0 %d" % (w, v), "vals 0", "su %d 0 %d" % (w, (v + 1) % (1 << 64)), "vals 0",
+               "mku 0", "vals 0", "mkn 0", "mkn 0", "vals 0", "ser 0 9"])
+        # the type-specific serializer with every buffer size 0 .. size + 1
+        for v, neg in ((0, 0), (23, 1), (24, 0), ((1 << w) - 1, 1)):
+            size = INT_SIZE(w, v)
+            A(["ni %d" % w, "su %d 0 %d" % (w, v)] + (["mkn 0"] if neg else []) +
+              ["sert %s 0 %d" % ("negint" if neg else "uint", n) for n in range(0, size + 2)])
+        # unset items: count operations, predicates, marks are fine; released without ever being set
+        A(["ni %d" % w, "inc 0", "preds 0", "mkn 0", "preds 0", "dec 0", "mku 0", "preds 0"])
+        A(["ni %d" % w, "inc 0", "mv 0", "preds 0", "idec 0"])
+        # stores into items built by the other constructors / obtained from containers
+        A(["bi 1 %d 7" % w, "su %d 0 300" % w, "vals 0", "mku 0", "vals 0", "nia", "push 1 0", "su %d 0 9" % w, "ser 1 12", "get 1 0", "su %d 2 10" % w, "vals 0", "ser 1 12"])
+    # ---- floats
+    for w, pats in ((16, F16_AS_F32), (32, F32_PATS), (64, F64_PATS)):
+        size = {16: 3, 32: 5, 64: 9}[w]
+        for b in pats:
+            A(["nf %d" % w, "preds 0", "sf %d 0 %x" % (w, b), "vals 0", "ssize 0", "ser 0 %d" % size, "sert fc 0 %d" % size, "copy 0", "vals 1", "salloc 1"])
+        A(["nf %d" % w, "sf %d 0 %x" % (w, pats[5])] + ["sert fc 0 %d" % n for n in range(0, size + 2)])
+        A(["nf %d" % w, "sf %d 0 %x" % (w, pats[2]), "vals 0", "sf %d 0 %x" % (w, pats[3]), "vals 0", "nia", "pushmv 1 0", "ser 1 12", "get 1 0", "sf %d 2 %x" % (w, pats[0]), "ser 1 12"])
+        A(["bf %d %x" % (w, pats[2]), "sf %d 0 %x" % (w, pats[4]), "vals 0", "ser 0 9"])
+        A(["nf %d" % w, "inc 0", "preds 0", "dec 0", "preds 0"])
+    # ---- ctrl values 0..255 through new_ctrl / set_ctrl; booleans; null / undef
+    for v in range(256):
+        size = 1 if v <= 23 else 2
+        ops = ["nc", "vals 0", "sc 0 %d" % v, "vals 0", "ssize 0", "ser 0 %d" % size, "sert fc 0 %d" % size]
+        if v in (0, 19, 20, 21, 22, 23, 24, 31, 32, 255):
+            ops += ["copy 0", "vals 1", "salloc 0"] + ["sert fc 0 %d" % n for n in range(0, size + 2)]
+        if v in (20, 21):
+            ops += ["sb 0 1", "vals 0", "ser 0 1", "sb 0 0", "vals 0", "ser 0 1", "sb 0 0", "vals 0"]
+        A(ops)
+    A(["nc", "sc 0 300", "vals 0", "sc 0 65556", "vals 0", "sb 0 1", "vals 0"])       # (uint8_t) conversion of the argument
+    for b in (0, 1):
+        A(["bb %d" % b, "vals 0", "val 0", "ser 0 1", "sert fc 0 1", "sb 0 %d" % (1 - b), "vals 0", "sb 0 %d" % b, "vals 0", "sc 0 22", "vals 0", "copy 0", "vals 1"])
+        A(["bc %d" % (20 + b), "sb 0 %d" % (1 - b), "vals 0", "nia", "pushmv 1 0", "ser 1 4"])
+    for o in ("nn", "nu"):
+        A([o, "vals 0", "val 0", "ssize 0", "ser 0 1", "sert fc 0 0", "sert fc 0 1", "sert fc 0 2", "sc 0 20", "sb 0 1", "vals 0", "copy 0", "vals 1"])
+    # ---- cbor_move: alone (the client holds two references, or a container holds one) and in the idioms
+    A(["bi 0 8 1", "inc 0", "mv 0", "vals 0"])
+    A(["nia", "bi 0 8 1", "push 0 1", "mv 1", "ser 0 5", "get 0 0", "vals 2"])
+    A(["nia", "ni 8", "su 8 1 5", "pushmv 0 1", "ser 0 10", "sert array 0 10", "get 0 0", "vals 2"])
+    A(["nda 2", "bb 1", "pushmv 0 1", "nn", "pushmv 0 2", "ser 0 4", "nu", "inc 3", "pushmv 0 3", "ser 0 4"])             # third push fails: the client kept a reference
+    A(["nda 1", "bi 0 8 1", "pushmv 0 1", "bi 0 8 2", "pushmv 0 2", "inc 2", "dec 2", "ser 0 4"])                         # failed push of a moved sole reference: count 0, reclaimed by incref + decref
+    A(["nda 0", "bs0 6162", "pushmv 0 1", "inc 1", "dec 1"])
+    A(["nt 5", "bb 1", "tsetmv 0 1", "ser 0 5", "sert tag 0 5", "titem 0", "vals 2"])
+    A(["nt 18446744073709551615", "nf 64", "sf 64 1 3ff0000000000000", "tsetmv 0 1", "ser 0 20", "copy 0", "ser 2 20"])
+    A(["bi 0 8 1", "btmv 7 0", "ser 1 4", "sert tag 1 4", "titem 1", "vals 2"])
+    A(["ni 16", "su 16 0 1000", "mkn 0", "btmv 100 0", "btmv 101 1", "ser 2 12", "copy 2", "ser 3 12"])
+    A(["nim", "bs0 6b", "bi 0 8 1", "maddmv 0 1 2", "ser 0 10", "sert map 0 10"])
+    A(["ndm 1", "bs0 6b", "nn", "maddmv 0 1 2", "bb 1", "bb 0", "inc 3", "inc 4", "maddmv 0 3 4", "ser 0 10"])            # second add fails: the client kept references
+    A(["nim", "bi 0 8 1", "inc 1", "maddmv 0 1 1", "ser 0 6"])                                                         # the same item as key and value: two references moved
+    A(["nim", "ni 8", "su 8 1 1", "nf 16", "sf 16 2 3c000000", "maddmv 0 1 2", "nc", "sc 3 0", "bs0 -", "maddmv 0 3 4", "ser 0 16", "copy 0", "ser 5 16"])
+    for n in (1, 2, 3, 5, 9):      # growth steps of an indefinite array under the idiom
+        A(["nia"] + sum((["ni 8", "su 8 %d %d" % (i + 1, i), "pushmv 0 %d" % (i + 1)] for i in range(n)), []) + ["ser 0 %d" % (2 + 2 * n), "sert array 0 %d" % (2 + 2 * n)])
+    # ---- cbor_intermediate_decref
+    A(["bi 0 8 1", "inc 0", "idec 0", "vals 0"])
+    A(["bs 0 0102", "idec 0"])
+    A(["nia", "bi 0 8 1", "push 0 1", "idec 1", "ser 0 5", "idec 0"])
+    A(["nia", "nia", "push 0 1", "bb 1", "pushmv 1 2", "idec 1", "ser 0 6", "idec 0"])     # releases a whole sub-tree when the outer array goes
+    A(["ni 32", "idec 0"])
+    # ---- cbor_build_string: NUL-terminated
+    for data in ("-", "61", "6100", "00", "006162", "610062", "61626300", "c3a9", "c3", "c3a900c3", "ff", "e282ac", "e282ac00ff", "f09f9880", "eda080", "f4908080",
+                 "6162636465666768696a6b6c6d6e6f7071727374757677", "6162636465666768696a6b6c6d6e6f707172737475767778", "41" * 255, "41" * 256, "41" * 24 + "00" + "42" * 9):
+        bs = bytes.fromhex(data) if data != "-" else b""
+        n = bs.index(0) if 0 in bs else len(bs)
+        size = n + (1 if n <= 23 else 2 if n <= 255 else 3)
+        A(["bs0 %s" % data, "val 0", "vals 0", "ssize 0", "ser 0 %d" % (size + 1), "sert string 0 %d" % size, "copy 0", "val 1", "salloc 1"])
+        if n <= 30:
+            A(["bs0 %s" % data] + ["sert string 0 %d" % k for k in range(0, size + 2)])
+    A(["nis 1", "bs0 6162", "chunk 0 1", "bs0 -", "chunk 0 2", "bs0 c3a900", "chunk 0 3", "ser 0 20", "sert string 0 20", "copy 0", "ser 4 20"])
+    # ---- the type-specific serializers on every type, every buffer size 0 .. size + 1
+    def sweep(build, h, kind, size):
+        A(build + ["ssize %d" % h] + ["sert %s %d %d" % (kind, h, n) for n in range(0, size + 2)] + ["ser %d %d" % (h, size)])
+    sweep(["bs 0 -"], 0, "bytes", 1); sweep(["bs 0 010203"], 0, "bytes", 4); sweep(["bs 0 %s" % ("55" * 24)], 0, "bytes", 26)
+    sweep(["nis 0"], 0, "bytes", 2); sweep(["nis 0", "bs 0 0102", "chunk 0 1", "bs 0 -", "chunk 0 2"], 0, "bytes", 6)
+    sweep(["nis 1"], 0, "string", 2); sweep(["nis 1", "bs 1 c3a9", "chunk 0 1", "chunk 0 1"], 0, "string", 8)
+    sweep(["bs 1 -"], 0, "string", 1); sweep(["bs 1 6869"], 0, "string", 3)
+    sweep(["nda 0"], 0, "array", 1); sweep(["nia"], 0, "array", 2)
+    sweep(["nda 3", "bi 0 8 1", "push 0 1", "bb 1", "push 0 2"], 0, "array", 3)
+    sweep(["nia", "bi 1 16 300", "push 0 1", "nn", "push 0 2", "bs0 6162", "push 0 3"], 0, "array", 9)
+    sweep(["ndm 0"], 0, "map", 1); sweep(["nim"], 0, "map", 2)
+    sweep(["ndm 2", "bi 0 8 1", "bs0 61", "madd 0 1 2"], 0, "map", 4)
+    sweep(["nim", "bi 0 8 24", "nu", "madd 0 1 2", "madd 0 2 1"], 0, "map", 8)
+    sweep(["bi 0 8 1", "bt 0 0"], 1, "tag", 2); sweep(["nia", "bt 24 0"], 1, "tag", 4); sweep(["bb 1", "bt 4294967296 0", "bt 65535 1"], 2, "tag", 13)
+    sweep(["bc 0"], 0, "fc", 1); sweep(["bc 255"], 0, "fc", 2); sweep(["bf 16 3c000000"], 0, "fc", 3); sweep(["bf 32 7fc00000"], 0, "fc", 5); sweep(["bf 64 7ff0000000000000"], 0, "fc", 9)
+    sweep(["bi 0 8 23"], 0, "uint", 1); sweep(["bi 1 8 24"], 0, "negint", 2); sweep(["bi 0 64 18446744073709551615"], 0, "uint", 9)
+    # predicates / getters on every other type
+    A(["bs 0 0102", "preds 0", "vals 0", "bs 1 6869", "vals 1", "nis 0", "vals 2", "nis 1", "vals 3", "nda 2", "vals 4", "nia", "vals 5", "ndm 1", "vals 6", "nim", "vals 7",
+       "nt 9", "preds 8", "vals 8", "nds 0", "vals 9", "nds 1", "vals 10"])
+    return out
+
+
+class Shadow3(Shadow):
+    def __init__(self, rng):
+        Shadow.__init__(self, rng)
+        self.unset = set()      # idents whose value has not been stored yet
+        self.width = {}         # ident -> int / float width (known for items this client made itself)
+        self.neg = {}           # ident -> sign of an int
+        self.ctrl = {}          # ident -> ctrl value
+    def ready(self, hs):
+        return [h for h in hs if self.ident[h] not in self.unset]
+    def total_own(self, ident):
+        return sum(self.own[h] for h in range(len(self.own)) if self.ident[h] == ident and self.own[h] > 0)
+
+
+def gen_history3(rng, length):
+    """rule-following histories mixing the calls of HHist3.v with those of HHist.v: on top of the rules of
+    gen_history, a value is never read (getter, serializer, copy, insertion into a container or tag)
+    before it has been stored; cbor_move alone only when another reference exists; f(.., cbor_move(x))
+    only when f will take its reference (room in a definite container, tag still empty)"""
+    s = Shadow3(rng)
+    def mk(text, kind, **attrs):
+        h = s.add(text, kind); i = s.ident[h]
+        for k, v in attrs.items():
+            getattr(s, k)[i] = v
+        return h
+    def room(a):
+        return s.kind[a] in ("arri", "mapi") or s.defcap.get(s.ident[a], 0) > 0
+    def insert(a, idents, pairs=False):
+        ia = s.ident[a]
+        s.children[ia] += idents; s.size[ia] = s.size.get(ia, 0) + 1
+        if s.kind[a] in ("arr", "map"): s.defcap[ia] -= 1
+    for _ in range(length):
+        r = rng.random()
+        live = s.live(); ready = s.ready(live)
+        arrs = s.live({"arr", "arri"}); maps = s.live({"map", "mapi"}); tags = s.live({"tag"}); chs = s.live({"bsi", "tsi"})
+        if r < 0.10 or not live:
+            text, kind = leaf_op(rng)
+            w = text.split()
+            if kind == "int": mk(text, kind, width=int(w[2]), neg=int(w[1]))
+            elif kind == "float":
+                b = int(w[2], 16); wd = int(w[1])
+                nan = ((b >> 23) & 0xFF) == 0xFF and (b & 0x7FFFFF) if wd != 64 else ((b >> 52) & 0x7FF) == 0x7FF and (b & ((1 << 52) - 1))
+                if nan: text = "bf %d %s" % (wd, "7fc00000" if wd != 64 else "7ff8000000000000")
+                mk(text, kind, width=wd)
+            elif kind == "ctrl": mk(text, kind, ctrl=int(w[1]))
+            else: s.add(text, kind)
+        elif r < 0.22:
+            k = rng.randrange(9)
+            if k == 0: w = rng.choice([8, 16, 32, 64]); h = mk("ni %d" % w, "int", width=w, neg=0); s.unset.add(s.ident[h])
+            elif k == 1: w = rng.choice([16, 32, 64]); h = mk("nf %d" % w, "float", width=w); s.unset.add(s.ident[h])
+            elif k == 2: mk("nc", "ctrl", ctrl=0)
+            elif k == 3: b = rng.randrange(2); mk("bb %d" % b, "ctrl", ctrl=20 + b)
+            elif k == 4: mk("nn", "ctrl", ctrl=22)
+            elif k == 5: mk("nu", "ctrl", ctrl=23)
+            elif k == 6:
+                n = rng.choice([0, 1, 3, 5])
+                s.add("bs0 %s" % hx([rng.choice([0, 0x41, 0x62, 0xC3, 0xA9, 0x7A]) for _ in range(n)]), "ts")
+            elif k == 7:
+                t = rng.randrange(2); s.add("nis %d" % t, "tsi" if t else "bsi")
+            else:
+                n = rng.randrange(0, 4); arr = rng.randrange(2)
+                h = s.add(("nda %d" if arr else "ndm %d") % n, "arr" if arr else "map"); s.defcap[s.ident[h]] = n
+        elif r < 0.28:
+            k = rng.randrange(3)
+            if k == 0: s.add("nia", "arri")
+            elif k == 1: s.add("nim", "mapi")
+            else: h = s.add("nt %d" % rng.choice([0, 24, 2 ** 64 - 1]), "tag"); s.tagfull[s.ident[h]] = False
+        elif r < 0.40:
+            # stores and marks
+            ints = [h for h in s.live({"int"}) if s.ident[h] in s.width]
+            flts = [h for h in s.live({"float"}) if s.ident[h] in s.width]
+            ctls = [h for h in s.live({"ctrl"}) if s.ident[h] in s.ctrl]
+            k = rng.randrange(5)
+            if k == 0 and ints:
+                h = rng.choice(ints); i = s.ident[h]; w = s.width[i]
+                s.op("su %d %d %d" % (w, h, rng.choice([0, 23, 24, (1 << w) - 1, rng.randrange(1 << w), min((1 << w) + 5, 2 ** 64 - 1)]))); s.unset.discard(i)
+            elif k == 1 and ints:
+                h = rng.choice(ints); i = s.ident[h]; n = rng.randrange(2)
+                s.op("%s %d" % ("mkn" if n else "mku", h)); s.neg[i] = n
+            elif k == 2 and flts:
+                h = rng.choice(flts); i = s.ident[h]; w = s.width[i]
+                b = rng.choice(F16_AS_F32 if w == 16 else F32_PATS if w == 32 else F64_PATS)
+                s.op("sf %d %d %x" % (w, h, b)); s.unset.discard(i)
+            elif k == 3 and ctls:
+                h = rng.choice(ctls); i = s.ident[h]; v = rng.choice([0, 20, 21, 22, 23, 24, 255, rng.randrange(256)])
+                s.op("sc %d %d" % (h, v)); s.ctrl[i] = v
+            elif k == 4 and ctls:
+                bl = [h for h in ctls if s.ctrl[s.ident[h]] in (20, 21)]
+                if bl:
+                    h = rng.choice(bl); b = rng.randrange(2); s.op("sb %d %d" % (h, b)); s.ctrl[s.ident[h]] = 20 + b
+        elif r < 0.50 and arrs and ready:
+            a = rng.choice(arrs); x = rng.choice(ready)
+            if s.reaches(s.ident[x], s.ident[a]): continue
+            if rng.random() < 0.5:
+                if not room(a): continue
+                s.op("pushmv %d %d" % (a, x)); s.own[x] -= 1; insert(a, [s.ident[x]])
+            else:
+                s.op("push %d %d" % (a, x))
+                if room(a): insert(a, [s.ident[x]])
+        elif r < 0.55 and arrs:
+            a = rng.choice(arrs); ia = s.ident[a]
+            i = rng.randrange(0, s.size.get(ia, 0) + 2)
+            if i < s.size.get(ia, 0):
+                h = s.add("get %d %d" % (a, i), None, ident=s.children[ia][i]); s.kind[h] = kind_of(s, s.children[ia][i])
+            else:
+                h = s.add("get %d %d" % (a, i), None); s.own[h] = 0
+        elif r < 0.59 and arrs and ready:
+            a = rng.choice(arrs); ia = s.ident[a]; x = rng.choice(ready)
+            if s.reaches(s.ident[x], ia): continue
+            i = rng.randrange(0, s.size.get(ia, 0) + 3)
+            which = rng.choice(["set", "repl"])
+            s.op("%s %d %d %d" % (which, a, i, x))
+            n = s.size.get(ia, 0)
+            if i < n: s.children[ia][i] = s.ident[x]
+            elif i == n and which == "set" and room(a): insert(a, [s.ident[x]])
+        elif r < 0.66 and maps and ready:
+            m = rng.choice(maps); k = rng.choice(ready); v = rng.choice(ready); im = s.ident[m]
+            if s.reaches(s.ident[k], im) or s.reaches(s.ident[v], im): continue
+            if rng.random() < 0.5:
+                if not room(m) or (k == v and s.own[k] < 2): continue
+                s.op("maddmv %d %d %d" % (m, k, v)); s.own[k] -= 1; s.own[v] -= 1; insert(m, [s.ident[k], s.ident[v]])
+            else:
+                s.op("madd %d %d %d" % (m, k, v))
+                if room(m): insert(m, [s.ident[k], s.ident[v]])
+        elif r < 0.69 and chs:
+            c = rng.choice(chs); want = "bs" if s.kind[c] == "bsi" else "ts"
+            xs = s.live({want})
+            if not xs: continue
+            x = rng.choice(xs)
+            s.op("chunk %d %d" % (c, x)); s.children[s.ident[c]].append(s.ident[x])
+        elif r < 0.75 and tags:
+            t = rng.choice(tags); it = s.ident[t]
+            k = rng.randrange(3)
+            if k < 2 and not s.tagfull.get(it, True) and ready:
+                x = rng.choice(ready)
+                if s.reaches(s.ident[x], it): continue
+                if k == 0: s.op("tsetmv %d %d" % (t, x)); s.own[x] -= 1
+                else: s.op("tset %d %d" % (t, x))
+                s.children[it] = [s.ident[x]]; s.tagfull[it] = True
+            elif k == 2 and s.tagfull.get(it):
+                h = s.add("titem %d" % t, None, ident=s.children[it][0]); s.kind[h] = kind_of(s, s.children[it][0])
+        elif r < 0.79 and ready:
+            x = rng.choice(ready)
+            if rng.random() < 0.5:
+                h = s.add("btmv %d %d" % (rng.choice([1, 100, 2 ** 32]), x), "tag"); s.own[x] -= 1
+            else:
+                h = s.add("bt %d %d" % (rng.choice([1, 100, 2 ** 32]), x), "tag")
+            s.children[s.ident[h]] = [s.ident[x]]; s.tagfull[s.ident[h]] = True
+        elif r < 0.82:
+            h = rng.choice(live); s.op("inc %d" % h); s.own[h] += 1
+        elif r < 0.84:
+            # cbor_move alone: only when the client holds a second reference of its own
+            hs = [h for h in live if s.total_own(s.ident[h]) >= 2]
+            if hs: h = rng.choice(hs); s.op("mv %d" % h); s.own[h] -= 1
+        elif r < 0.89:
+            h = rng.choice(live); s.op(rng.choice(["dec %d", "idec %d"]) % h); s.own[h] -= 1
+        elif r < 0.91 and ready:
+            h = rng.choice(ready)
+            if not complete(s, s.ident[h]): continue
+            n = s.add("copy %d" % h, s.kind[h]); clone(s, s.ident[h], s.ident[n])
+            for d in (s.width, s.neg, s.ctrl):
+                if s.ident[h] in d: d[s.ident[n]] = d[s.ident[h]]
+        elif r < 0.94:
+            s.op("preds %d" % rng.choice(live))
+        elif ready:
+            h = rng.choice(ready)
+            if not complete(s, s.ident[h]) or s.kind[h] in (None, "loaded"): continue
+            kd = s.kind[h]; i = s.ident[h]
+            sk = {"float": "fc", "ctrl": "fc", "bs": "bytes", "bsi": "bytes", "ts": "string", "tsi": "string", "arr": "array", "arri": "array",
+                  "map": "map", "mapi": "map", "tag": "tag"}.get(kd)
+            if kd == "int" and i in s.neg: sk = "negint" if s.neg[i] else "uint"
+            choices = ["vals %d" % h, "vals %d" % h, "ssize %d" % h, "ser %d %d" % (h, rng.randrange(0, 12)), "salloc %d" % h, "desc %d" % h]
+            if kd != "float": choices.append("val %d" % h)
+            if sk: choices += ["sert %s %d %d" % (sk, h, rng.randrange(0, 12))] * 2
+            s.op(rng.choice(choices))
+    for h in range(len(s.kind)):
+        while s.own[h] > 0:
+            s.op("dec %d" % h); s.own[h] -= 1
+    return s
+
+def render3(s):
+    own, out = [], []
+    for text in s.ops:
+        _effects3(text.split(), own)
+        live = [h for h in range(len(own)) if own[h] > 0]
+        out.append(text + (" ? " + " ".join(map(str, live)) if live else ""))
+    return "; ".join(out)
+
+def api3_cases(ctx):
+    """(a) scenario families for every call of HHist3.v, (b) random rule-following histories mixing them with the older calls"""
+    rng = ctx.rng
+    out = api3_scenarios(ctx)
+    n = 500 if ctx.tier == "quick" else 8000
+    for i in range(n):
+        length = rng.choice([4, 8, 12, 20, 40]) if i % 10 else rng.choice([80, 150])
+        out.append(render3(gen_history3(rng, length)))
+    return out
